@@ -167,6 +167,50 @@ impl Property for C07 {
             let c = crate::fuzzrun::Campaign { target: "fz_bytes", runs_per_worker: runs, workers: 16, seed, max_len: 4096, seeds: fuzz_seeds(seed) };
             crate::fuzzrun::campaign_for("C07", &c, st)?;
         }
+        // small-scope exhaustive histories: every pair parse(I1), extend(I2) over inputs of up to 3 top-level
+        // fragments from a 9-fragment alphabet (820 inputs, 672 400 pairs), default reader and 1-byte chunks
+        {
+            let inputs = crate::bytesgen::fragment_inputs(9, 3);
+            let n = inputs.len();
+            let opts = OptSpec { prefix: "@".into(), text_id: "$text".into(), derive: "Serialize, Deserialize".into(), by_name: false };
+            let results: Vec<(u64, Option<(String, Vec<u8>, Vec<u8>)>)> = std::thread::scope(|s| {
+                let hs: Vec<_> = (0..16usize)
+                    .map(|w| {
+                        let inputs = &inputs;
+                        let opts = &opts;
+                        s.spawn(move || {
+                            let mut evals = 0u64;
+                            for i in (w..n).step_by(16) {
+                                for j in 0..n {
+                                    let cfg = if (i + j) % 7 == 0 {
+                                        ReaderCfg { kind: ReaderKind::Chunk(1), expand_empty: (i + j) % 2 == 0, trim_text: false, check_end_names: true }
+                                    } else {
+                                        ReaderCfg::default_slice()
+                                    };
+                                    evals += 1;
+                                    if let Err(e) = run_history(&[inputs[i].clone(), inputs[j].clone()], &cfg, opts, None) {
+                                        return (evals, Some((e, inputs[i].clone(), inputs[j].clone())));
+                                    }
+                                }
+                            }
+                            (evals, None)
+                        })
+                    })
+                    .collect();
+                hs.into_iter().map(|h| h.join().expect("join")).collect()
+            });
+            for (e, f) in results {
+                st.evaluations += e;
+                st.add("exhaustive.fragment_histories", e);
+                st.nontrivial_enumerated += e;
+                if let Some((msg, a, b)) = f {
+                    return Err((
+                        Failure::new(format!("small-scope history parse({:?}), extend({:?}): {}", String::from_utf8_lossy(&a), String::from_utf8_lossy(&b), msg)),
+                        json!({"history_hex": [crate::runner::hex(&a), crate::runner::hex(&b)]}),
+                    ));
+                }
+            }
+        }
         // regression corpus: every file through every chunk size and flag combination
         let dir = crate::runner::verif_root().join("corpus").join("bytes");
         let mut files: Vec<std::path::PathBuf> = match std::fs::read_dir(&dir) {
@@ -185,7 +229,7 @@ impl Property for C07 {
                     let cfg = ReaderCfg { kind, expand_empty: flags & 1 != 0, trim_text: flags & 2 != 0, check_end_names: flags & 4 == 0 };
                     st.evaluations += 1;
                     st.count("corpus.runs");
-                    crate::crashguard::begin_case(&[], &[], &[]);
+                    crate::crashguard::begin_case(&[], &[], &[], false);
                     let r = run_history(&[data.clone(), data.clone()], &cfg, &opts, Some(st));
                     crate::crashguard::end_case();
                     if let Err(e) = r {
@@ -200,7 +244,7 @@ impl Property for C07 {
     fn replay_custom(&self, payload: &Value) -> Result<(), Failure> {
         if payload["fuzz_target"].is_string() {
             let input = crate::runner::unhex(payload["input_hex"].as_str().unwrap_or(""));
-            crate::crashguard::begin_case(&input, &[], &[]);
+            crate::crashguard::begin_case(&input, &[], &[], false);
             // only C07's part of the target: the C08 oracle is replayed under C08
             let (cfg, opts, twice, body) = crate::fuzzglue::decode_bytes_input(&input);
             if nesting_depth(body, cfg.expand_empty, cfg.check_end_names) > MAX_DEPTH || nesting_depth(body, false, true) > MAX_DEPTH {
@@ -208,6 +252,14 @@ impl Property for C07 {
             }
             let inputs: Vec<Vec<u8>> = if twice { vec![body.to_vec(), body.to_vec()] } else { vec![body.to_vec()] };
             return run_history(&inputs, &cfg, &opts, None).map_err(Failure::new);
+        }
+        if let Some(h) = payload["history_hex"].as_array() {
+            let inputs: Vec<Vec<u8>> = h.iter().map(|x| crate::runner::unhex(x.as_str().unwrap_or(""))).collect();
+            let opts = OptSpec { prefix: "@".into(), text_id: "$text".into(), derive: "Serialize, Deserialize".into(), by_name: false };
+            for cfg in [ReaderCfg::default_slice(), ReaderCfg { kind: ReaderKind::Chunk(1), expand_empty: true, trim_text: false, check_end_names: true }, ReaderCfg { kind: ReaderKind::Chunk(1), expand_empty: false, trim_text: false, check_end_names: true }] {
+                run_history(&inputs, &cfg, &opts, None).map_err(Failure::new)?;
+            }
+            return Ok(());
         }
         let f = payload["corpus_file"].as_str().unwrap_or("");
         let data = std::fs::read(f).map_err(|e| Failure::new(format!("cannot read {}: {}", f, e)).with_signature("infrastructure"))?;
@@ -221,7 +273,7 @@ impl Property for C07 {
         Ok(())
     }
     fn rule(&self) -> String {
-        "byte strings decoded from tapes (byte-level mutations of generated valid documents with an XML token dictionary, raw bytes, nesting chains up to depth 260, tiny fragments) fed as into_struct(B1), extend_struct(B2), ... through &[u8], BufReader capacities 1..8192 and a chunked BufRead (1,2,3,7,64,4096 bytes per fill), with trim_text / expand_empty_elements / check_end_names in all combinations; every Ok result is rendered with generated options under both sort orders. Oracle: every call returns (catch_unwind); a supervising process turns a crash signal (stack overflow, abort) or a case running longer than 20 s into a violation with the offending tapes. Inputs nested deeper than 200 (by an independent pass over the reader events) are outside the statement and skipped (counted). Non-trivial = the default reader emits three or more events for the input; distinct by hash of input bytes and reader configuration. The committed regression corpus (/verif/corpus/bytes) is replayed through 5 readers x 8 flag combinations.".into()
+        "byte strings decoded from tapes (byte-level mutations of generated valid documents with an XML token dictionary, raw bytes, nesting chains up to depth 260, tiny fragments) fed as into_struct(B1), extend_struct(B2), ... through &[u8], BufReader capacities 1..8192 and a chunked BufRead (1,2,3,7,64,4096 bytes per fill), with trim_text / expand_empty_elements / check_end_names in all combinations; every Ok result is rendered with generated options under both sort orders. Oracle: every call returns (catch_unwind); a supervising process turns a crash signal (stack overflow, abort) or a case running longer than 20 s into a violation with the offending tapes. Inputs nested deeper than 200 (by an independent pass over the reader events) are outside the statement and skipped (counted). Non-trivial = the default reader emits three or more events for the input; distinct by hash of input bytes and reader configuration. Small-scope exhaustive part: all 672 400 histories parse(I1), extend(I2) over inputs of up to three top-level fragments from nine (multi-root inputs included). The committed regression corpus (/verif/corpus/bytes) is replayed through 5 readers x 8 flag combinations.".into()
     }
     fn assumptions(&self) -> Vec<String> {
         vec![
@@ -246,6 +298,8 @@ impl Property for C07 {
             ("reader.chunked", 10000),
             ("cfg.trim_text", 10000),
             ("cfg.check_end_names=false", 10000),
+            ("gen.fragments", 5000),
+            ("exhaustive.fragment_histories", 600000),
         ]
     }
 }
